@@ -446,7 +446,7 @@ pub fn run_c37(ctx: &Ctx) -> i32 {
         json!("small mode: all monotone bad sets (descendant-closed, containing the range heads) of every generated range; ranges have <= 10 commits (graphs of <= 9 commits plus the root)"),
     );
     ctx.assume("an evaluation answering 'skip' that is never requested cannot influence the run, so such runs are judged by the no-skip oracle");
-    let n_cases = ctx.tier().pick(1_200, 60_000);
+    let n_cases = ctx.tier().pick(6_000, 60_000);
     par_cases(ctx, n_cases, threads(), |i, cs, rng| {
         let small = !rng.chance(1, 3);
         let n_commits = if small { rng.range(2, 9) } else { rng.range(12, 200) };
@@ -1110,7 +1110,7 @@ pub fn run_c38(ctx: &Ctx) -> i32 {
          (history, start, domain).",
     );
     ctx.assume("FileAnnotator::compute's documented precondition 'pending commits are included in the domain' is respected: every generated domain contains the start commit");
-    let n_cases = ctx.tier().pick(4_000, 300_000);
+    let n_cases = ctx.tier().pick(20_000, 300_000);
     par_cases(ctx, n_cases, threads(), |i, cs, rng| {
         let unique = !rng.chance(1, 3);
         let n = rng.range(3, 14);
@@ -1698,7 +1698,7 @@ pub fn run_c46(ctx: &Ctx) -> i32 {
     ctx.assume("the progress callback of rebase_descendants_with_options reports every rebased commit (used to log the edges of automatically rebased descendants); edges of operations jj creates itself (merge of concurrent operations) are read from the operation store");
     ctx.assume("all operations store predecessors (no legacy operations are generated); evolution.rs documents that the walk stops at legacy operations");
     ctx.assume("predecessors are always commits known to the transaction's base repo (realistic rewrites); a commit recorded as successor of a commit created by a concurrent, unmerged operation is not generated");
-    let n_cases = ctx.tier().pick(450, 40_000);
+    let n_cases = ctx.tier().pick(700, 40_000);
     par_cases(ctx, n_cases, threads(), |i, cs, rng| {
         let fixed_time = rng.chance(1, 3);
         let n_steps = rng.range(5, 12);
